@@ -143,6 +143,14 @@ func ruleC03Exec(p *Prog, a *Anchors, r *Report) {
 		entry[f] = true
 	}
 	entry[a.ExecCore] = true
+	// also the unexported ways into an execution (executeWriterNested …): methods of *Template taking a Context
+	for _, f := range p.Methods(a.Template) {
+		for i := 0; i < f.Signature.Params().Len(); i++ {
+			if types.Identical(f.Signature.Params().At(i).Type(), a.Context) {
+				entry[f] = true
+			}
+		}
+	}
 	p.EachInstr(func(f *ssa.Function, in ssa.Instruction) {
 		ci, ok := in.(ssa.CallInstruction)
 		if !ok || ci.Common().StaticCallee() == nil || !entry[ci.Common().StaticCallee()] {
@@ -580,6 +588,9 @@ func ruleC03Set(p *Prog, a *Anchors, r *Report) {
 	if fc := p.Method("TemplateSet", "FromCache"); fc != nil {
 		compileMethods[fc] = true
 	}
+	for f := range a.FileLoaders {
+		compileMethods[f] = true
+	}
 	p.EachInstr(func(f *ssa.Function, in ssa.Instruction) {
 		ci, ok := in.(ssa.CallInstruction)
 		if !ok {
@@ -602,7 +613,16 @@ func ruleC03Set(p *Prog, a *Anchors, r *Report) {
 		if callee == a.NewTemplate || (callee.Name() == "newTemplateString" && p.InPkg(callee)) {
 			key := p.FuncName(f) + ":call " + callee.Name()
 			top := topLevel(f)
-			if !compileMethods[top] && !(top.Name() == "newTemplateString") {
+			// an unexported method of the set that constructs the template for its own receiver (the loader behind
+			// FromFile that tag parsers use for nested loads): the set association holds by construction, and it is
+			// only reachable from a compile that an exported entry (which freezes the set) has started
+			internalLoader := false
+			if recv := top.Signature.Recv(); recv != nil && structOf(recv.Type()) == a.TemplateSet && (top.Object() == nil || !top.Object().Exported()) && len(ci.Common().Args) > 0 {
+				if pa, isParam := ci.Common().Args[0].(*ssa.Parameter); isParam && pa == top.Params[0] {
+					internalLoader = true
+				}
+			}
+			if !compileMethods[top] && !(top.Name() == "newTemplateString") && !internalLoader {
 				r.Bad(key, p.InstrPos(in), "a Template is constructed outside the set's From* methods (in %s): the freeze flag and the set association are bypassed", p.FuncName(f))
 				return
 			}
